@@ -70,6 +70,15 @@ def scenario(seed):
         else:
             # a second point of ini within tolerance of the first
             ini_pts.append((ini_pts[mk][0] * (1 + 2e-8), 5, rand_m(rng), rand_m(rng) if witherr_ini else None))
+        if rng.random() < 0.5:
+            # the first EKO also holds targets of another nf - at the very scale of the matching point
+            # and elsewhere - stored BEFORE it: the product must pick the point by scale AND nf
+            decoys = [(ini_pts[mk][0], rng.choice([4, 6]), rand_m(rng), rand_m(rng) if witherr_ini else None)]
+            if rng.random() < 0.5:
+                decoys.append((mus[rng.randrange(3)] * 1.3, 4, rand_m(rng), rand_m(rng) if witherr_ini else None))
+            ini_pts = decoys + ini_pts
+            mk += len(decoys)
+            nini += len(decoys)
         fin_pts = [(mus[3 + j], 5, rand_m(rng), rand_m(rng) if witherr_fin else None) for j in range(rng.randrange(1, 4))]
         if rng.random() < 0.4:   # a target of fin that ini already has: must be kept as in ini
             p = ini_pts[rng.randrange(nini)]
